@@ -53,6 +53,8 @@ def monitor(cfg, masks, res):
         bad.append(('observer', 'send/recv observer could not be installed'))
     evs = sc.compared(res.events)
     hooks = {s: '' for s in range(n)}
+    pending = {}      # (sender slot, level) -> [tag, payload]: sent, not yet consumed by the next step
+    expect_u0 = {}    # (slot, level) -> payload just received: the next sweep/check on that level must start from it
     finished = []
     last_iter = {}
     fin_vals = {}
@@ -78,18 +80,48 @@ def monitor(cfg, masks, res):
             lvl, tag = e[2], e[3]
             if tag != (lvl, last_iter.get(slot, 0), slot):
                 bad.append(('tag', 'send on slot %d level %d wrote tag %s' % (slot, lvl, tag)))
+            # every forward transfer is consumed: the previous message of this (step, level) must have been received
+            if (slot, lvl) in pending:
+                bad.append(('unconsumed_send', 'message %s sent by slot %d on level %d was never received by slot %d '
+                            '(next send %s)' % (pending[(slot, lvl)][0], slot, lvl, slot + 1, tag)))
+            pending[(slot, lvl)] = [tag, None]
+        elif k == 'endpt':
+            if (slot, e[2]) in pending and pending[(slot, e[2])][1] is None and len(e) > 3:
+                pending[(slot, e[2])][1] = e[3]
+        elif k == 'transfer':
+            if e[2] < e[3]:
+                expect_u0.pop((slot, e[3]), None)      # restriction overwrites u[0] of the coarser level
+        elif k in ('sweep', 'resid'):
+            lvl = e[2]
+            u0 = e[3] if k == 'sweep' else (e[4] if len(e) > 4 else None)
+            if (slot, lvl) in expect_u0 and (k == 'sweep' or e[3] == 'IT_CHECK'):
+                want = expect_u0.pop((slot, lvl))
+                if u0 is not None and want is not None and u0 != want:
+                    bad.append(('stale_u0', 'slot %d level %d works on u[0] = %r after receiving %r' % (slot, lvl, u0, want)))
         elif k == 'recv':
             lvl, tag, found = e[2], e[3], e[4]
             if tag != found:
                 bad.append(('tag', 'recv on slot %d level %d expected %s found %s' % (slot, lvl, tag, found)))
             if tag[0] != lvl or tag[2] != slot - 1 or tag[1] != last_iter.get(slot, 0):
                 bad.append(('tag', 'recv on slot %d level %d expects tag %s' % (slot, lvl, tag)))
+            msg = pending.pop((slot - 1, lvl), None)
+            payload = e[5] if len(e) > 5 else None
+            if msg is None:
+                bad.append(('recv_without_send', 'slot %d receives on level %d (tag %s) but slot %d has no unconsumed message '
+                            'on that level' % (slot, lvl, tag, slot - 1)))
+            elif msg[0] != tag or (msg[1] is not None and payload is not None and msg[1] != payload):
+                bad.append(('recv_wrong_payload', 'slot %d level %d consumed %s/%r, last sent was %s/%r'
+                            % (slot, lvl, tag, payload, msg[0], msg[1])))
+            expect_u0[(slot, lvl)] = payload
     if res.outcome == 'ok':
         for s in range(n):
             if not GRAMMAR.match(hooks.get(s, '')):
                 bad.append(('grammar', 'slot %d: %s' % (s, hooks.get(s, ''))))
         if sorted(finished) != list(range(n)):
             bad.append(('termination', 'finished slots %s' % finished))
+        for (sl, lvl), msg in sorted(pending.items()):
+            bad.append(('unconsumed_send', 'message %s sent by slot %d on level %d was never received by slot %d'
+                        % (msg[0], sl, lvl, sl + 1)))
         # iteration bound: nothing forces continuation from max(maxiter, W) on
         B = max(mi, W)
         for s, (it, _) in fin_vals.items():
